@@ -2,6 +2,7 @@ import datetime
 import math
 
 DAYS_PER_MONTH = [31, 28, 31, 30, 31, 30, 31, 31, 30, 31, 30, 31]
+MILLIS_PER_DAY = 24 * 60 * 60 * 1000
 DAYS_1900 = 2  # day number of 1900-01-01, the year to_oa_date starts counting from
 
 
@@ -43,22 +44,12 @@ def to_date(oadate):
     while value >= month_days(year, month):
         value -= month_days(year, month)
         month += 1
-    day = math.trunc(value) + 1
-    value = value - math.trunc(value)
-    hours = math.trunc(value * 24)
-    value = value * 24 - hours
-    minutes = math.trunc(value * 60)
-    value = value * 60 - minutes
-    seconds = math.trunc(value * 60)
-    value = value * 60 - seconds
-    microseconds = math.trunc(value * 1000 * 1000)
-    result = datetime.datetime.fromtimestamp(0)
-    return result.replace(
-        year=year,
-        month=month+1,
-        day=day,
-        hour=hours,
-        minute=minutes,
-        second=seconds,
-        microsecond=microseconds
+    day = math.floor(value)
+    # A day number is a float: its time of day carries rounding noise (about
+    # 1 microsecond today, 40 microseconds in year 9999). Round to the nearest
+    # millisecond, the resolution of OLE automation dates, instead of
+    # truncating 12:30:15 to 12:30:14.999999.
+    millis = round((value - day) * MILLIS_PER_DAY)
+    return datetime.datetime(year, month + 1, day + 1) + datetime.timedelta(
+        milliseconds=millis
     )
